@@ -32,6 +32,11 @@ def project_list(tier):
     out.append(("amend_built", [("f_amend", {"extra": "built"})], {"njob": 2}))
     out.append(("amend_optional_dropped", [("f_amend", {"extra": "optional"}),
                                            ("f_amend", {"extra": "optional", "version": "none"})], {"njob": 2}))
+    for kind in ("fail", "defer"):
+        out.append((f"resdetached:{kind}", [("f_resdetached", {"kind": kind})],
+                    {"njob": 4, "resources": "gpu:1", "keep_going": True}))
+    out.append(("holddied", [("f_hold", {"nesting": 2, "fail": 1, "v": 1}), ("f_hold", {"nesting": 2, "fail": 0, "v": 2})],
+                {"njob": 3}))
     out.append(("amend_tree", [("f_amend", {"extra": "tree"})], {"njob": 2}))
     out.append(("prodcons", [("f_prodcons", {"consumer": "read_first", "producer_by": "step"})], {"njob": 3}))
     out.append(("defercap", [("f_prodcons", {"consumer": "read_first"})], {"njob": 3, "defer_cap": 1}))
